@@ -85,7 +85,10 @@ def check(rep, F, tier, replay=None):
         if p["mode"] == "fold":
             org = ff.Origins(F, fid)
             folds = [c for c in F.calls(fid) if (c.to or "").endswith("::fold") and "Iterator" in (c.to or "")]
-            if len(folds) == 0:
+            guard = any((c.to or "").endswith(("Option::<T>::is_some", "Option::<T>::is_none")) and "ScriptHash" in (c.info.get("ga") or "") for s_ in subs for c in F.calls(s_))
+            if not guard:
+                rep.violation("IDX", p["fn"] + "|script-only", "%s maps inputs to Spend redeemer indices without testing the input's script-hash marker (no is_some / is_none on the Option<ScriptHash> of the registration): an input that was first registered with a Plutus witness and later re-registered as a key / bootstrap input still gets a (Spend, i) redeemer - a redeemer pointing at an item that is not script-locked" % p["fn"], {})
+            elif len(folds) == 0:
                 rep.lost("%s no longer builds its input index map with a fold (re-anchor IDX for this purpose)" % p["fn"])
             elif len(folds) != 1:
                 rep.violation("IDX", p["fn"] + "|fold", "%s: expected one fold building the input index map, found %d" % (p["fn"], len(folds)), {})
